@@ -120,6 +120,9 @@ var AllPrimitives = func() []cadence.PrimitiveType {
 		if ty == interpreter.PrimitiveStaticTypeCapability { //nolint:staticcheck
 			continue
 		}
+		if ty == interpreter.PrimitiveStaticTypeInvalid {
+			continue // not a type a program can denote (no cadence.PrimitiveType constant exists for it)
+		}
 		out = append(out, cadence.PrimitiveType(ty))
 	}
 	return out
@@ -289,7 +292,7 @@ func (g *G) newUniverse() *Universe {
 		kind := Kind(g.weighted(6, 2, 2, 1, 2, 1))
 		u.Composites = append(u.Composites, NewCompositeType(kind, u.Locations[li], qid(li), nil, nil, nil))
 	}
-	nIface := g.weighted(2, 3, 2, 1)
+	nIface := g.weighted(1, 2, 3, 2)
 	for i := 0; i < nIface; i++ {
 		li := g.intn(nLoc)
 		var it cadence.InterfaceType
@@ -322,7 +325,7 @@ func (g *G) newUniverse() *Universe {
 			ct.(*cadence.EnumType).RawType = raw
 			fields = []cadence.Field{{Identifier: "rawValue", Type: raw}}
 		} else {
-			n := g.weighted(2, 4, 4, 3, 1)
+			n := g.weighted(1, 4, 4, 3, 1)
 			names := g.distinctIdents(n)
 			for k := 0; k < n; k++ {
 				fields = append(fields, cadence.Field{Identifier: names[k], Type: g.valueType(g.Cfg.MaxDepth-1, i)})
@@ -335,7 +338,15 @@ func (g *G) newUniverse() *Universe {
 			case 1:
 				ct.(*cadence.AttachmentType).BaseType = cadence.AnyResourceType
 			default:
-				ct.(*cadence.AttachmentType).BaseType = u.Composites[g.intn(len(u.Composites))]
+				// a struct or resource of the universe, if there is one
+				base := cadence.Type(cadence.AnyStructType)
+				for _, k := range g.perm(len(u.Composites)) {
+					switch u.Composites[k].(type) {
+					case *cadence.StructType, *cadence.ResourceType:
+						base = u.Composites[k]
+					}
+				}
+				ct.(*cadence.AttachmentType).BaseType = base
 			}
 		}
 		setCompositeTypeFields(ct, fields)
@@ -374,7 +385,8 @@ func (g *G) initializers(fields []cadence.Field) [][]cadence.Parameter {
 		}
 		return [][]cadence.Parameter{ps}
 	default:
-		n := 1 + g.intn(2)
+		// Cadence has no initializer overloading: at most one initializer
+		n := 1
 		out := make([][]cadence.Parameter, n)
 		for i := range out {
 			out[i] = g.parameters(1)
@@ -440,7 +452,7 @@ func (g *G) valueType(d int, lim int) cadence.Type {
 			return g.directComposite(lim)
 		}
 	}
-	switch g.weighted(8, 3, 5, 4, 2, 4, 5, 2, 2, 1, 1, 1) {
+	switch g.weighted(8, 3, 5, 4, 2, 4, 5, 2, 2, 1, 1, 3) {
 	case 0:
 		return pick(g, SimpleValueTypes)
 	case 1:
@@ -659,7 +671,7 @@ func (g *G) Type(d int) cadence.Type {
 	if d <= 0 {
 		return leaf()
 	}
-	switch g.weighted(8, 4, 3, 2, 3, 4, 2, 2, 2, 1) {
+	switch g.weighted(8, 4, 3, 2, 3, 4, 4, 2, 2, 1) {
 	case 0:
 		return leaf()
 	case 1:
@@ -688,6 +700,6 @@ func (g *G) Type(d int) cadence.Type {
 	case 8:
 		return g.FunctionType(d - 1)
 	default:
-		return cadence.NewInclusiveRangeType(g.Type(0))
+		return cadence.NewInclusiveRangeType(g.rangeElementType()) // InclusiveRange<T: Integer>
 	}
 }
